@@ -46,6 +46,13 @@ def config_histories(tier, rng):
                "timescale": rng.choice([1, 1000, 600, U32 - 1])}
         kind = rng.choice(muxgen.KINDS)
         hs.append({"base": 0, "cfg": cfg, "ops": [{"add": muxgen.tc(kind, ts=ts, lang=lang)}] + [{"w": [1, d, 0, True, "aa"]} for d in (ts, 1, min(U32 - 1, ts * 3))]})
+    # summed durations crossing 2^32 exactly at the last sample (media, track and movie units); empty brand list
+    for kind in muxgen.KINDS:
+        for tts, mts in ((1000, 1000), (1000, 90000), (90000, 1000), (1, 3)):
+            for first, last in ((U32 - 11, 1024), (U32 - 1, 1), (U32 - 1, 0), (1 << 31, 1 << 31)):
+                hs.append({"base": 0, "cfg": dict(muxgen.DEFAULT_CFG, timescale=mts, brands=[] if kind == "ttxt" else muxgen.DEFAULT_CFG["brands"]),
+                           "ops": [{"add": muxgen.tc(kind, ts=tts)}, {"w": [1, first, 0, True, "aa"]}, {"w": [1, last, 0, False, "bb"]}]})
+    hs.append({"base": 0, "cfg": {"major": muxgen.fourcc("isom"), "minor": 0, "brands": [], "timescale": 1000}, "ops": [{"add": muxgen.tc("avc")}] + samples})
     # several tracks: the movie duration is the longest
     for _ in range(40 if tier == "quick" else 400):
         hs.append(muxgen.random_history(rng, bad=0.0, max_samples=40))
